@@ -2,9 +2,11 @@
     entry point [PrimeDecomp.decompose md f int_basis table p draws] for ALL inputs of the stated
     shape and ALL draw streams.
 
-    NOT proved here (see vp/props/c17.py): primality of the returned ideals, norm P_i = p^f_i,
-    prod P_i^e_i = (p), sum e_i f_i = n (Kummer-Dedekind theorem; correctness of the mod-p
-    factoriser is property C08). *)
+    Status (later sections supersede the first-wave list): the degree sum, properness, distinctness,
+    primality and norms p^f_i of the returned ideals are proved for every index prime to p (third wave);
+    prod P_i^e_i = (p) is proved under p-maximality, and for the whole pipeline find_integral_basis ->
+    decompose (fifth wave). NOT proved (see vp/props/c17.py): termination of the Cantor-Zassenhaus loop
+    for all draw streams (false); the converse of Dedekind's criterion. *)
 From Coq Require Import ZArith List QArith Qcanon.
 From RNT.Model Require Import Base Poly LinAlg MultTable Order Ideal PrimeDecomp.
 From RNT.Model Require Hnf.
